@@ -838,6 +838,10 @@ class Interp:
         k = self.fresh("k", "int")
         saved = len(self.cond)
         henv = spec.havoc(k, env)
+        # soundness guard: every name the loop body (re)binds must have been havoc'd by the contract
+        for name in sorted(_assigned_names(st.body)):
+            if name in env and name in henv and henv[name] is env[name] and not isinstance(env[name], (int, float, str, bool, type(None))):
+                raise Untranslatable(f"loop {key}: the contract's havoc does not cover `{name}`, which the loop body assigns")
         self.assume(z3.And(k >= 0, k < n))
         self.assume(spec.inv(k, henv, entry))
         self.assign(st.target, seq.at(k), henv)
@@ -1368,6 +1372,28 @@ class Interp:
                  RuntimeError="RuntimeError", KeyError="KeyError", IndexError="IndexError", Exception="Exception",
                  True_=True, None_=None, NotImplemented=NotImplemented, Ellipsis=Ellipsis)
         return b
+
+
+def _assigned_names(body):
+    out = set()
+
+    def tgt(t):
+        if isinstance(t, ast.Name):
+            out.add(t.id)
+        elif isinstance(t, (ast.Tuple, ast.List)):
+            for x in t.elts:
+                tgt(x.value if isinstance(x, ast.Starred) else x)
+
+    for node in body:
+        for sub in ast.walk(node):
+            if isinstance(sub, ast.Assign):
+                for t in sub.targets:
+                    tgt(t)
+            elif isinstance(sub, (ast.AugAssign, ast.AnnAssign)):
+                tgt(sub.target)
+            elif isinstance(sub, ast.For):
+                tgt(sub.target)
+    return out
 
 
 def _has_quantifier(e, _cache={}):
